@@ -784,7 +784,7 @@ def compare_signature(abi, sig, fis, aj, known_keys, stats):
             pack = aj["args"][v0]
             stats["cls"]["apple-variadic-first-arg-probed"] = stats["cls"].get("apple-variadic-first-arg-probed", 0) + 1
             if not any(v["kind"] == "reg" for v in pack) and stack_ok and pack and pack[0]["kind"] == "stack" and pack[0]["off"] != off:
-                fail("apple-arm64-variadic-stack-offset", "first unnamed arg %d (%s): clang va_arg reads [sa+%d], AsmJit %s" % (v0, sig["args"][v0], off, fmt_aj(pack)))
+                fail("apple-arm64-variadic-args-in-registers", "[va_index ignored] first unnamed arg %d (%s): clang va_arg reads [sa+%d], AsmJit %s" % (v0, sig["args"][v0], off, fmt_aj(pack)))
     # --- total stack area / callee pops
     fi0 = fis.get("p0")
     if fi0 is not None and not fi0.problems and abi["arch"] == "x86":
